@@ -214,3 +214,15 @@ def observe(obj, flat, ty=None):
         else:
             out.append(norm(kind, leaf['a'], cur))
     return out
+
+
+def drain(sl):
+    """the caller reads on: whatever is left of the slice a parser was given is consumed (the object the parser returned is a value
+    of its own - it does not change because its source slice is read further)"""
+    try:
+        if sl.remaining_bits:
+            sl.load_bits(sl.remaining_bits)
+        while sl.remaining_refs:
+            sl.load_ref()
+    except Exception:
+        pass
